@@ -47,5 +47,5 @@ pub fn qft_swapped(a_mask: N) -> MultiOp {
         swaps *= crate::operator::single::swap::swap(vec_mask[i] | vec_mask[len - i - 1]).unwrap();
     }
 
-    qft(a_mask) * swaps
+    swaps * qft(a_mask)
 }
